@@ -96,6 +96,7 @@ type wf struct {
 	f     *ssa.Function
 	bases map[ssa.Value]aff // slice value -> offset of its element 0 within the body
 	memo  map[ssa.Value]aff
+	depth int
 	extra func(v ssa.Value) (aff, bool) // caller-supplied atoms
 	res   *Result                       // optional SCCP specialisation (constants folded, dead blocks skipped)
 }
@@ -218,6 +219,9 @@ func (w *wf) affine1(v ssa.Value) aff {
 				return affAtom("len").add(off, -1)
 			}
 		}
+		if sub, ret := w.readerHelper(x); sub != nil {
+			return sub.affine(ret)
+		}
 		if f := c.StaticCallee(); f != nil && f.Pkg != nil && f.Pkg.Pkg.Path() == "encoding/binary" && len(c.Args) >= 1 {
 			// method value on littleEndian/bigEndian: last arg is the slice
 			arg := strip(c.Args[len(c.Args)-1])
@@ -312,6 +316,26 @@ func (w *wf) reads() []readFact {
 				return
 			}
 			out = append(out, readFact{rangeStr(lo, hi, open), ds, x.Pos(), x})
+		case *ssa.Call:
+			// a pure in-package reader (data, pos...) -> integer: its reads happen here, at the caller's offsets, and go
+			// where the call's value goes
+			if sub, _ := w.readerHelper(x); sub != nil {
+				ds := uniq(w.dests(x, map[ssa.Value]bool{}))
+				if len(ds) == 0 {
+					ds = []string{"unused"}
+				}
+				for _, f := range sub.reads() {
+					keep := false
+					for _, d := range f.Dests {
+						if strings.HasPrefix(d, "ret#") {
+							keep = true
+						}
+					}
+					if keep {
+						out = append(out, readFact{f.Range, ds, x.Pos(), x})
+					}
+				}
+			}
 		case *ssa.IndexAddr:
 			off, ok := w.bases[x.X]
 			if !ok {
@@ -589,4 +613,68 @@ func (w *wf) bodyBasesNoHelpers() []string {
 func canonName(c *ssa.Call) string {
 	n, _ := canonCall(c)
 	return n
+}
+
+// readerHelper: c calls an in-package function that only reads: one []byte parameter that is a base here, the other
+// parameters integers, no stores, no calls but encoding/binary and builtins, one return of one integer. Returns an analyser of
+// the callee positioned at the caller's offsets (the slice parameter is the same base, the integer parameters are the
+// caller's affine arguments) and the returned value.
+func (w *wf) readerHelper(c *ssa.Call) (*wf, ssa.Value) {
+	cc := c.Common()
+	f := cc.StaticCallee()
+	if f == nil || f.Blocks == nil || cc.IsInvoke() || f.Pkg != w.f.Pkg || f == w.f || w.depth >= 2 {
+		return nil, nil
+	}
+	if f.Signature.Results().Len() != 1 || !isIntegerType(f.Signature.Results().At(0).Type()) {
+		return nil, nil
+	}
+	sub := newWF(f)
+	sub.depth = w.depth + 1
+	sub.res = nil
+	ints := map[ssa.Value]aff{}
+	nb := 0
+	for i, a := range cc.Args {
+		if i >= len(f.Params) {
+			return nil, nil
+		}
+		p := f.Params[i]
+		switch {
+		case isIntegerType(a.Type()):
+			ints[p] = w.affine(a)
+		default:
+			off, isBase := w.bases[a]
+			if !isBase {
+				return nil, nil
+			}
+			sub.bases[p] = off
+			nb++
+		}
+	}
+	if nb != 1 {
+		return nil, nil
+	}
+	pure := true
+	instrs(f, func(in ssa.Instruction) {
+		switch x := in.(type) {
+		case *ssa.Store, *ssa.MapUpdate, *ssa.Send, *ssa.Go, *ssa.Defer:
+			pure = false
+		case *ssa.Call:
+			if _, isB := x.Common().Value.(*ssa.Builtin); isB {
+				return
+			}
+			if cal := x.Common().StaticCallee(); cal != nil && cal.Pkg != nil && cal.Pkg.Pkg.Path() == "encoding/binary" {
+				return
+			}
+			pure = false
+		}
+	})
+	rets := returnsOf(f)
+	if !pure || len(rets) != 1 {
+		return nil, nil
+	}
+	sub.extra = func(v ssa.Value) (aff, bool) {
+		a, ok := ints[v]
+		return a, ok
+	}
+	return sub, rets[0].Results[0]
 }
